@@ -263,6 +263,8 @@ def build(case):
             kw["weight"] = k["weight"]
         vary.append(xd.Vary(n, box, step=k.get("step", 1e-7), tag=k.get("tag", ""), **kw))
     fun = mkfun(spec)
+    if spec.get("replace_target") is not None:
+        fun = replaced_target(fun, spec["replace_target"], spec.get("eval_budget"))      # only used for the disabled-target twin
     act = Act(box, fun, names, log, spec.get("raise_region"))
     tars = []
     for i, t in enumerate(spec["targets"]):
@@ -310,6 +312,10 @@ def run_case(case, fail, stats):
     start_inside = all(l is None or l[0] <= k["init"] <= l[1] for k, l in zip(spec["knobs"], lims))
     events = []
     stats["cases"] += 1
+    # target weights are the user's to change between two calls: every log row is judged with the weights in force when it
+    # was written
+    w_built = [t.weight for t in opt.targets]
+    row_w = [list(w_built) for _ in range(nrows_of(opt._log))]
 
     def in_limits(vals, what):
         for i, l in enumerate(lims):
@@ -353,6 +359,16 @@ def run_case(case, fail, stats):
             elif name == "poke":
                 # the user assigns a knob directly, between two calls of the optimizer (knobs are the user's data)
                 box[names[args["knob"]]] = args["value"]
+            elif name == "set_tol":
+                # the user asks for a finer (or coarser) match of the same problem between two calls (targets are the user's
+                # objects, as knobs are)
+                opt.targets[args["target"]].tol = args["tol"]
+            elif name == "set_weight":
+                # ... or pushes harder on one target: .weight, or its alias .scale
+                if args.get("scale"):
+                    opt.targets[args["target"]].scale = args["weight"]
+                else:
+                    opt.targets[args["target"]].weight = args["weight"]
             else:
                 raise ValueError(name)
         except UserRaise:
@@ -399,6 +415,15 @@ def run_case(case, fail, stats):
         stats["calls"] += 1
         stats["call:" + name] = stats.get("call:" + name, 0) + 1
         stats["exc:" + exc] = stats.get("exc:" + exc, 0) + 1
+        # the model is handed the tolerances in force during the call (set_tol is the only call that changes them, and it
+        # has no model line), the rows written by the call carry the weights in force (set_weight writes no row)
+        events[-1]["ttol"] = [fbits(t.tol) for t in opt.targets]
+        if name == "clear_log":
+            del row_w[:]
+        while len(row_w) < nrows_of(L):
+            row_w.append([t.weight for t in opt.targets])
+            if row_w[-1] != w_built:
+                stats["rows_written_under_changed_weights"] = stats.get("rows_written_under_changed_weights", 0) + 1
         if exc == "TypeError":
             fail("C10", "call-raises-TypeError", {"call": call})
             return events
@@ -543,6 +568,8 @@ def run_case(case, fail, stats):
             y = np.array(fun(np.array(kk, dtype=float)), dtype=float)
             mo = np.array([ch == "y" for ch in ta])
             w = np.array([t.weight for t in opt.targets], dtype=float)
+            if r < len(row_w):
+                w = np.array(row_w[r], dtype=float)      # the weights in force when the row was written
             tvals = np.array([t.value for t in opt.targets], dtype=float)
             e = (y - tvals).copy()
             e[~mo] = 0
@@ -551,6 +578,8 @@ def run_case(case, fail, stats):
                 fail("C15", "logged-penalty-not-reproducible", {"row": r, "recomputed": p, "logged": float(pen)})
             if not np.allclose(y, np.array(tv, dtype=float), rtol=1e-6, atol=1e-9):
                 fail("C15", "logged-targets-not-reproducible", {"row": r})
+    if case.get("twin") is not None:
+        twin_oracle(case, events, fail, stats)
     return events
 
 
@@ -632,6 +661,8 @@ def driver_line(case, e):
                "tvalue": [fbits(t.get("value", 0.0)) for t in spec["targets"]],
                "ttol": [fbits(t["tol"]) for t in spec["targets"]],
                "ftable": ftable, "assert": spec.get("assert_within_tol", True), "restore": spec.get("restore_if_fail", True)}
+    if e.get("ttol") is not None:
+        problem["ttol"] = e["ttol"]          # the tolerances in force during the call (the user may have changed them: set_tol)
     call = {"kind": name}
     if sel is not None:
         call["args"] = sel
@@ -665,6 +696,136 @@ def driver_line(case, e):
             "impl": {"exc": cat, "knobs": e["knobs"], "vact": e["flags"][0], "tact": e["flags"][1],
                      "rows": [{"knobs": r["knobs"], "vary_active": r["vary_active"], "target_active": r["target_active"]} for r in e["rows"]],
                      "last_within": e["last_within"]}}
+
+
+# ----------------------------------------------------------------------------
+# "a disabled target has no influence on the steps taken" (C10): the twin run
+# ----------------------------------------------------------------------------
+def unbits(h):
+    return struct.unpack("<d", bytes.fromhex(h))[0]
+
+
+def jnum(x):
+    """a float for a failure detail: non-finite values as text (NaN is not a JSON literal)"""
+    x = float(x)
+    return x if math.isfinite(x) else repr(x)
+
+
+class Runaway(Exception):
+    """the twin run has evaluated the user function many times more often than the run it is compared with"""
+
+
+def replaced_target(fun, rt, budget=None):
+    """the user function with target d replaced by a diagnostic quantity of knob k that is not defined everywhere:
+    rt = [d, mode, k, thr, side]; with u = side * (thr - x[k]) the value is log(u) (nan for u < 0, -inf at 0), sqrt(u) (nan
+    for u < 0), 1/u (+-inf at 0), +-exp(710 - 50 u) (an overflow: +-inf for u <= 0), nan everywhere, or a constant.
+    After `budget` evaluations the function fails (a search that does not end is reported, not waited for)"""
+    d, mode, k, thr, side = rt
+    count = [0]
+
+    def g(x):
+        count[0] += 1
+        if budget is not None and count[0] > budget:
+            raise Runaway("more than %d evaluations" % budget)
+        y = np.array(fun(x), dtype=float)
+        with np.errstate(all="ignore"):
+            u = np.float64(side * (thr - x[k]))
+            if mode == "log":
+                v = np.log(u)
+            elif mode == "sqrt":
+                v = np.sqrt(u)
+            elif mode == "inv":
+                v = np.float64(1.0) / u
+            elif mode == "exp":
+                v = np.exp(710.0 - 50.0 * u)
+            elif mode == "negexp":
+                v = -np.exp(710.0 - 50.0 * u)
+            elif mode == "nan":
+                v = np.float64("nan")
+            elif mode == "const":
+                v = np.float64(thr)
+            else:
+                raise ValueError(mode)
+        y[d] = v
+        return y
+    return g
+
+
+def twin_oracle(case, events, fail, stats):
+    """the same calls on a second problem whose user function differs ONLY in target d: as long as d is disabled in every
+    call that takes steps (persistently, or for the call through step(disable_target=...)), both runs write the same values
+    into the knob container in the same order, append the same rows (knobs, alpha, flags, tags; the penalty of every row
+    logged while d is off), leave the same knobs and flags and end the same way"""
+    tw = case["twin"]
+    d = tw["target"]
+    spec2 = dict(case["problem"])
+    if tw.get("replace") is not None:
+        spec2["replace_target"] = [d] + list(tw["replace"])
+    else:
+        spec2["perturb"] = [d, tw.get("perturb", 1.0)]
+    # the twin may need as many evaluations as the problem as given, not 20 times more
+    spec2["eval_budget"] = 1000 + 20 * sum(1 for e in events for ev in e["events"] if ev[0] == "f")
+    # the calls up to the first one that takes steps with d switched on: from there on the two problems are different problems
+    ncmp = 0
+    for e in events:
+        name, args = e["call"][0], (e["call"][1] if len(e["call"]) > 1 else {})
+        if name in ("solve", "step"):
+            en = args.get("enable_target") or []
+            # tags / regular expressions among the per-call enable arguments may select d too: such a call is not compared
+            off = e["pre"]["tact"][d] == "n" and d not in en and all(isinstance(x, int) and not isinstance(x, bool) for x in en)
+            if name == "step" and d in (args.get("disable_target") or []):
+                off = True
+            if not off:
+                break
+        ncmp += 1
+    if not any(e["call"][0] in ("solve", "step") for e in events[:ncmp]):
+        return
+    case2 = {"problem": spec2, "calls": case["calls"][:ncmp], "check_rows": False}
+    st2 = {k: 0 for k in ("cases", "calls", "solve_ok", "solve_raise", "rows_reloaded", "build_failed")}
+    ev2 = run_case(case2, lambda *a, **k: None, st2)
+    if ev2 is None:
+        return
+    stats["twin_cases"] = stats.get("twin_cases", 0) + 1
+    kind = "twin:" + (tw["replace"][0] if tw.get("replace") is not None else "perturb")
+    stats[kind] = stats.get(kind, 0) + 1
+    nonfinite = 0
+    for j, (ea, eb) in enumerate(zip(events, ev2)):
+        call = ea["call"]
+        nonfinite += sum(1 for ev in eb["events"] if ev[0] == "f" and ev[2] is not None and not math.isfinite(unbits(ev[2][d])))
+        stats["twin_calls_compared"] = stats.get("twin_calls_compared", 0) + 1
+        diff = None
+        wa = [ev for ev in ea["events"] if ev[0] == "w"]
+        wb = [ev for ev in eb["events"] if ev[0] == "w"]
+        if ea["exc"] != eb["exc"]:
+            diff = ("outcome", ea["exc"], eb["exc"])
+        elif ea["knobs"] != eb["knobs"]:
+            diff = ("knobs left in the container", [jnum(unbits(h)) for h in ea["knobs"]], [jnum(unbits(h)) for h in eb["knobs"]])
+        elif ea["flags"] != eb["flags"]:
+            diff = ("flags", ea["flags"], eb["flags"])
+        elif len(ea["rows"]) != len(eb["rows"]):
+            diff = ("number of rows logged", len(ea["rows"]), len(eb["rows"]))
+        elif wa != wb:
+            i = next((i for i, (a, b) in enumerate(zip(wa, wb)) if a != b), min(len(wa), len(wb)))
+            diff = ("writes into the knob container (first difference at write %d of %d / %d)" % (i, len(wa), len(wb)),
+                    [[w[1], jnum(unbits(w[2]))] for w in wa[i:i + 4]], [[w[1], jnum(unbits(w[2]))] for w in wb[i:i + 4]])
+        else:
+            for r, (ra, rb) in enumerate(zip(ea["rows"], eb["rows"])):
+                stats["twin_rows_compared"] = stats.get("twin_rows_compared", 0) + 1
+                for col in ("knobs", "alpha", "vary_active", "target_active", "tag") + (("penalty",) if ra["target_active"][d] == "n" else ()):
+                    if ra[col] != rb[col]:
+                        dec = (lambda v: [jnum(unbits(h)) for h in v]) if col == "knobs" else ((lambda v: jnum(unbits(v))) if col == "penalty" else (lambda v: v))
+                        diff = ("log column %r, row %d of the call" % (col, r), dec(ra[col]), dec(rb[col]))
+                        break
+                if diff:
+                    break
+        if diff:
+            fail("C10", "disabled-target-influences-steps",
+                 {"disabled_target": d, "twin": tw, "call_index": j, "call": call, "what": diff[0], "problem_as_given": diff[1],
+                  "twin_problem": diff[2], "non_finite_values_of_the_disabled_target_so_far": nonfinite})
+            break
+    if nonfinite:
+        stats["twin_cases_reaching_non_finite_values"] = stats.get("twin_cases_reaching_non_finite_values", 0) + 1
+        stats["twin_non_finite_evaluations"] = stats.get("twin_non_finite_evaluations", 0) + nonfinite
 
 
 # ----------------------------------------------------------------------------
@@ -921,6 +1082,124 @@ def fixed_cases():
                             "knobs": [{"init": 0.5, "limits": [-10, 10]}, {"init": -0.5, "limits": [-10, 10]}],
                             "targets": [{"tol": 1e-9}, {"tol": 1e-9}], "n_steps_max": 10},
                "calls": [["step", dict(n=2, **kw)], ["solve", {}]]}
+    yield from fixed_cases_user_changes()
+
+
+def fixed_cases_user_changes():
+    """tolerances and target weights changed by the user between two calls; disabled targets that are not defined
+    everywhere"""
+    two = [{"init": 0.5, "limits": [-10, 10]}, {"init": -0.5, "limits": [-10, 10]}]
+    # a coarse solve, the tolerances tightened (all / one / before anything else / tightened and partly loosened again),
+    # solve again: a normal return means within the tolerances in force NOW
+    for kind, A, b in (("trig", [[3, 1], [1, 4]], [1, 2]), ("quad", [[1, 0.5], [0.25, 1]], [3, 2]), ("trig", [[2, -1], [0.5, 3]], [5, -3])):
+        prob = {"class": "converge", "kind": kind, "nk": 2, "A": A, "b": b, "knobs": two,
+                "targets": [{"tol": 0.1}, {"tol": 0.1}], "n_steps_max": 20}
+        yield {"problem": prob, "calls": [["solve", {}], ["set_tol", {"target": 0, "tol": 1e-9}], ["set_tol", {"target": 1, "tol": 1e-9}],
+                                          ["solve", {}]]}
+        yield {"problem": prob, "calls": [["solve", {}], ["set_tol", {"target": 1, "tol": 1e-10}], ["solve", {"broyden": True}]]}
+        yield {"problem": prob, "calls": [["set_tol", {"target": 0, "tol": 1e-8}], ["set_tol", {"target": 1, "tol": 1e-8}], ["solve", {}]]}
+        yield {"problem": prob, "calls": [["step", {"n": 1}], ["set_tol", {"target": 0, "tol": 1e-7}], ["set_tol", {"target": 1, "tol": 1e-7}],
+                                          ["solve", {}], ["set_tol", {"target": 0, "tol": 0.1}], ["set_tol", {"target": 1, "tol": 1e-11}], ["solve", {}]]}
+    # ... with a third target that is switched off (the coarse solve, a finer one, then an inconsistent one that restores)
+    yield {"problem": {"class": "converge", "kind": "quad", "nk": 2, "A": [[1, 0.5], [0.25, 1], [1, 1]], "b": [3, 2, -40], "knobs": two,
+                        "targets": [{"tol": 0.1}, {"tol": 0.1}, {"tol": 0.1}], "n_steps_max": 20},
+           "calls": [["disable", {"target": [2]}], ["solve", {}], ["set_tol", {"target": 0, "tol": 1e-9}], ["set_tol", {"target": 1, "tol": 1e-9}],
+                     ["set_tol", {"target": 2, "tol": 1e-9}], ["solve", {}], ["enable", {"target": [2]}], ["solve", {}]]}
+    # a target weight changed between two calls ("push harder on this target"): rows written afterwards (tag, steps, reload)
+    # carry penalties under the new weights, and take_best minimises under them
+    for kind, A, b in (("quad", [[1, 0.5], [0.25, 1]], [3, 2]), ("trig", [[3, 1], [1, 4]], [1, 2])):
+        prob = {"class": "far", "kind": kind, "nk": 2, "A": A, "b": b, "knobs": [{"init": 0.7}, {"init": -0.4}],
+                "targets": [{"tol": 1e-9}, {"tol": 1e-9}], "n_steps_max": 3}
+        for sc in (False, True):
+            yield {"problem": prob, "calls": [["step", {"n": 1}], ["set_weight", {"target": 1, "weight": 25.0, "scale": sc}], ["tag", {"tag": "reweighted"}],
+                                              ["step", {"n": 2}], ["reload", {"i": 2}]], "log_reads": [False, False, True, False, True]}
+        yield {"problem": prob, "calls": [["set_weight", {"target": 0, "weight": 0.01}], ["step", {"n": 2, "take_best": False}],
+                                          ["set_weight", {"target": 0, "weight": 4.0}], ["clear_log", {}], ["step", {"n": 1}]]}
+        yield {"problem": dict(prob, targets=[{"tol": 1e-9, "weight": 2}, {"tol": 1e-9, "weight": 0.5}]),
+               "calls": [["step", {"n": 1}], ["set_weight", {"target": 0, "weight": 10.0}], ["set_weight", {"target": 1, "weight": 10.0}],
+                         ["step", {"n": 2}], ["solve", {}]]}
+    # a disabled target that is not defined (nan), infinite or overflowing on part of the domain — an aperture-like margin
+    # log(3.5 - k0), a square root, an overflow — finite at the start; the full Newton step of the enabled (linear)
+    # targets lands where it is not: the steps are those of the problem in which that target is any other function
+    lin = {"class": "far", "kind": "linear", "nk": 2, "A": [[1, 0], [0, 1], [0, 0]], "b": [4, 1, 0],
+           "knobs": [{"init": 0.0, "limits": [-10, 10]}, {"init": 0.0, "limits": [-10, 10]}],
+           "targets": [{"tol": 1e-9}, {"tol": 1e-9}, {"tol": 1e-9}], "n_steps_max": 5}
+    for rt in (["log", 0, 3.5, 1], ["sqrt", 0, 3.5, 1], ["exp", 0, 3.5, 1], ["negexp", 1, 0.5, 1], ["log", 1, 0.75, 1], ["nan", 0, 0.0, 1]):
+        tw = {"target": 2, "replace": rt}
+        yield {"problem": lin, "twin": tw, "calls": [["disable", {"target": [2]}], ["step", {"n": 2}], ["solve", {}]]}
+        yield {"problem": lin, "twin": tw, "calls": [["step", {"n": 2, "disable_target": [2]}], ["tag", {"tag": "t"}], ["reload", {"i": 1}]]}
+        yield {"problem": lin, "twin": tw, "calls": [["disable", {"target": [2]}], ["step", {"n": 1, "broyden": True, "take_best": False}],
+                                                     ["step", {"n": 2, "broyden": True}]]}
+    yield {"problem": dict(lin, b=[-4, -1, 0]), "twin": {"target": 2, "replace": ["sqrt", 0, -3.5, -1]},
+           "calls": [["disable", {"target": [2]}], ["step", {"n": 2}]]}
+    # ... and the plain form of the twin: the disabled target is another finite function
+    yield {"problem": lin, "twin": {"target": 2, "perturb": 7.5}, "calls": [["disable", {"target": [2]}], ["step", {"n": 2}]]}
+    yield {"problem": lin, "twin": {"target": 2, "perturb": -3.0}, "calls": [["step", {"n": 2, "disable_target": [2]}], ["step", {"n": 1}]]}
+
+
+def augment_case(rng, case, family):
+    """the user's own moves between two calls, drawn from a PRNG of their own (the cases drawn before these existed stay what
+    they were): a tolerance or a target weight changed, and — family c10 — the twin problem for a disabled target"""
+    spec, calls = case["problem"], case["calls"]
+    reads = case.get("log_reads")
+    nk, nt = spec["nk"], len(spec["targets"])
+
+    def insert(pos, call):
+        calls.insert(pos, call)
+        if reads is not None:
+            reads.insert(pos, rng.random() < 0.3)
+
+    def new_tol(t):
+        return rng.choice([t * 1e-3, t * 1e-6, t * 1e3, 1e-12, 1e-9, 1e-6, 1e-3, 0.05])
+
+    if family == "c09":
+        if rng.random() < 0.4:
+            # loosen before the first solve (so that it is a coarse one), tighten after it, solve again
+            first = next((i for i, c in enumerate(calls) if c[0] == "solve"), None)
+            if first is not None:
+                which = [t for t in range(nt) if rng.random() < 0.7] or [rng.randrange(nt)]
+                pos = first + 1
+                for t in which:
+                    insert(pos, ["set_tol", {"target": t, "tol": rng.choice([1e-12, 1e-10, 1e-8, spec["targets"][t]["tol"] * 1e-3])}])
+                    pos += 1
+                insert(pos, ["solve", {"broyden": rng.random() < 0.2}])
+                if rng.random() < 0.7:
+                    for t in which:
+                        insert(first, ["set_tol", {"target": t, "tol": rng.choice([0.3, 0.1, 0.02, 1e-3])}])
+        elif rng.random() < 0.15:
+            insert(rng.randrange(len(calls) + 1), ["set_tol", {"target": rng.randrange(nt), "tol": new_tol(spec["targets"][0]["tol"])}])
+    else:
+        if rng.random() < 0.3:
+            for _ in range(rng.randint(1, 2)):
+                t = rng.randrange(nt)
+                if rng.random() < 0.5:
+                    insert(rng.randrange(len(calls) + 1), ["set_tol", {"target": t, "tol": new_tol(spec["targets"][t]["tol"])}])
+                else:
+                    insert(rng.randrange(len(calls) + 1), ["set_weight", {"target": t, "weight": rng.choice([1e-3, 0.5, 2.0, 10.0, 25.0]),
+                                                                          "scale": rng.random() < 0.3}])
+    if family == "c10" and nt > 1:
+        # a target that the calls switch off (persistently or for one call), or one switched off here, and a twin problem
+        # in which it is another function: finite, or not defined / infinite beyond some value of one knob
+        d = None
+        for c in calls:
+            a = c[1] if len(c) > 1 else {}
+            if c[0] == "disable" and a.get("target") and isinstance(a["target"][0], int):
+                d = a["target"][0]
+            elif c[0] == "step" and a.get("disable_target"):
+                d = a["disable_target"][0]
+            if d is not None or c[0] in ("step", "solve"):
+                break
+        if d is None and rng.random() < 0.25:
+            d = rng.randrange(nt)
+            insert(0, ["disable", {"target": [d]}])
+        if d is not None:
+            if rng.random() < 0.25:
+                case["twin"] = {"target": d, "perturb": rng.choice([0.5, -3.0, 100.0])}
+            else:
+                k = rng.randrange(nk)
+                side = rng.choice([1, -1])
+                thr = round(spec["knobs"][k]["init"] + side * rng.choice([0.02, 0.1, 0.3, 1.0, 3.0]), 3)
+                case["twin"] = {"target": d, "replace": [rng.choice(["log", "log", "sqrt", "inv", "exp", "negexp", "nan"]), k, thr, side]}
 
 
 def main():
@@ -950,6 +1229,7 @@ def main():
             spec = gen_problem(rng)
             calls = gen_calls(rng, spec, a.family)
             cases.append({"problem": spec, "calls": calls, "log_reads": gen_log_reads(rng, calls)})
+            augment_case(random.Random(a.seed * 7919 + 104729 * i + sum(map(ord, a.family))), cases[-1], a.family)
     for i, case in enumerate(cases):
         def fail(prop, kind, detail, known=None, i=i):
             failures.append({"property": prop, "kind": kind, "hist": i, "op_index": 0, "detail": detail, "known": known})
